@@ -36,7 +36,7 @@ CHECKS = {
               "rejected: stderr non-empty, stdout empty, and for single-damage cases stderr contains the date and account of the first offending directive. "
               "Non-trivial: the verdict involves same-day open/use/assert/close of one account, or exactly one damage led to rejection; distinct by journal text."),
         assumptions=["within one file, arrival order is file order", "accrual split rule as documented (x/n truncated at one decimal, remainder first)"],
-        quick=dict(tests=[dict(name="TestC04", cases=16000)]),
+        quick=dict(tests=[dict(name="TestC04", cases=8000)]),
         thorough=dict(tests=[dict(name="TestC04", cases=320000)]),
     ),
     "C10": dict(
@@ -125,5 +125,18 @@ CHECKS = {
         quick=dict(tests=[dict(name="TestC08", cases=32000), dict(name="TestC08CLI", cases=800)]),
         thorough=dict(tests=[dict(name="TestC08", cases=320000), dict(name="TestC08CLI", cases=5600)],
                       fuzz=[dict(name="FuzzC08", seconds=90, seed_corpus=True)]),
+    ),
+    "C06": dict(
+        level="exploration",
+        rule=("Inputs: accepted journals (sibling accounts of equal sort weight, same-day same-kind directives, @performance targets, accruals) plus extra price "
+              "declarations between arbitrary commodity pairs (alternative paths, cycles), shuffled and dealt over an include tree of 1-6 files, x one command with drawn "
+              "flags: balance (all flag families, valued and unvalued), print, check --write, transcode, portfolio weights, portfolio returns. "
+              "Oracle: the same argv is run K times (6 quick, 24 thorough) on the verif build with different KNUT_VERIF_SCHED perturbation seeds and GOMAXPROCS in {1,2,16,4,3,8}; "
+              "exit status and stdout bytes must be equal in all runs (Go randomises map iteration per process, so repetition samples map orders; the hook shakes goroutine "
+              "arrival order). Import and infer determinism are checked inside C13 and C15. Non-trivial: the input contains >=1 tie/alternative (sibling accounts, same-day "
+              "same-kind directives, several files, alternative price paths, performance targets); distinct by (files, argv)."),
+        assumptions=["detection of an order dependence with per-run probability p is 1-(1-p)^(K-1) per input; the schedule is perturbed, not controlled"],
+        quick=dict(tests=[dict(name="TestC06", cases=1600)]),
+        thorough=dict(tests=[dict(name="TestC06", cases=16000)]),
     ),
 }
